@@ -316,12 +316,11 @@ def run_case(w, rng):
                     arr = A(*([0] if A._shape != (None, None) else [0, rng.choice([0, 2])]), _buffer=env.buf)
                     if rng.random() < 0.4:
                         env.force_growth()
-                    want = base_of(env.buf) + int(arr._offset) + int(arr._data_offset)
                     try:
-                        a = K[f"paddr_{tn}"](p=arr)
+                        # there is no first element: only that the call is an ordinary call is judged (an array of the
+                        # right element type is not among the calls that are refused)
+                        K[f"paddr_{tn}"](p=arr)
                         w.count("empty_xobject_array_pointer_calls")
-                        if int(a) != want:
-                            viol("pointer-not-first-element|xobject-empty", f"kernel saw {int(a)}, the data would begin at {want}")
                     except Exception as e:
                         viol(f"pointer-arg-{exc_kind(e)}|xobject-empty", f"{type(e).__name__}: {e}")
                 finally:
